@@ -239,14 +239,14 @@ EXTRA = {
  'C05': " Cases are visited in shuffled order, half of them through one long-lived context with reassigned version; layout snapshots taken oldest-first and newest-first in fresh interpreters must agree (process-history independence).",
  'C06': " Tables are re-read newest-first, shuffled and alternating and must not change; reactors are first built by four threads at once under yield injection.",
  'C07': " Releases are visited in shuffled order, every other packet through one context object with reassigned version. At every published id of a core packet the state table must offer the core class as the only claimant (the reader's id->class slot). Release names resolve to the published numbers (45 names, also against the README); keep-alive ids beyond 2^31; one packet object written through live connections of different releases.",
- 'C09': " A decoy Connection (other address, user and callbacks) is constructed after the one under test; a third of the status queries follow a compressed login on the same object; reply versions are biased to the snapshots where login ids rotate. Replies arrive whole, byte-wise, in 3+ fragments or padded, through forced short reads; mismatch replies carry known version names that contradict the protocol number; callback order of a plain query is judged. A server that closes on accept while the client's query write fails; replies that arrive 6 s (thorough: 12, 31 s) late still decide. Version names full of format metacharacters; a status handler that raises IgnorePacket must not stop ping, close and exit callback. Every known-but-unsupported name is refused and every supported name accepted at construction.",
- 'C10': " A quarter of the logins are the second connection of the object (after an encrypted+compressed session, or after a failed one with an answer still queued), a third are reached through negotiation, server frames of exactly threshold bytes are included, a decoy object is present in a third. Forced short reads; a server that refuses the login and resets before the client's first write. User plugin handlers answer with implicit success and empty payloads, and answers queued while the encryption response is being written must travel encrypted. Disconnect reasons with bare-string siblings; plugin and encryption requests in one segment; a slow listener on the encryption request. Plugin message ids with bit 31 set; the packets after a state transition travel in the same segment as the transition packet.",
- 'C11': " A third of the conversations are the second session of the object (opposite transport settings, possibly another version); protocol 47 also switches compression on during play; fault classes: close and reset right after the disconnect packet; decoy object in a third. The reset fault class extends to 400 packets and waits (SIOCOUTQ) until everything was delivered; a directed schedule puts the reset between two echo writes of one batch; thorough adds 11 s and 31 s silent gaps inside a frame. Directed: the client leaves from an outgoing listener in mid-write; chat components and disconnect reasons of 33000-70000 characters; after set-compression(0) in play state every client frame must be compressed. Every compressed conversation contains frames of exactly threshold size. Bounded progress under inbound load: with 4000 frames already buffered behind a keep-alive the answer is written after at most 1000 dispatched packets (50 observed); free-running flood variant bounded by 60000 frames; descriptors still held by Connection objects whose sessions have ended; a slow consumer in a fifth of the conversations.",
+ 'C09': " A decoy Connection (other address, user and callbacks) is constructed after the one under test; a third of the status queries follow a compressed login on the same object; reply versions are biased to the snapshots where login ids rotate. Replies arrive whole, byte-wise, in 3+ fragments or padded, through forced short reads; mismatch replies carry known version names that contradict the protocol number; callback order of a plain query is judged. A server that closes on accept while the client's query write fails; replies that arrive 6 s (thorough: 12, 31 s) late still decide. Version names full of format metacharacters; a status handler that raises IgnorePacket must not stop ping, close and exit callback. Every known-but-unsupported name is refused and every supported name accepted at construction. Replies reporting protocol 0; allowed sets that mix a supported pre-release with later releases.",
+ 'C10': " A quarter of the logins are the second connection of the object (after an encrypted+compressed session, or after a failed one with an answer still queued), a third are reached through negotiation, server frames of exactly threshold bytes are included, a decoy object is present in a third. Forced short reads; a server that refuses the login and resets before the client's first write. User plugin handlers answer with implicit success and empty payloads, and answers queued while the encryption response is being written must travel encrypted. Disconnect reasons with bare-string siblings; plugin and encryption requests in one segment; a slow listener on the encryption request. Plugin message ids with bit 31 set; the packets after a state transition travel in the same segment as the transition packet. 'Outdated' messages naming versions the library does not know; user names of several shapes verified in login start.",
+ 'C11': " A third of the conversations are the second session of the object (opposite transport settings, possibly another version); protocol 47 also switches compression on during play; fault classes: close and reset right after the disconnect packet; decoy object in a third. The reset fault class extends to 400 packets and waits (SIOCOUTQ) until everything was delivered; a directed schedule puts the reset between two echo writes of one batch; thorough adds 11 s and 31 s silent gaps inside a frame. Directed: the client leaves from an outgoing listener in mid-write; chat components and disconnect reasons of 33000-70000 characters; after set-compression(0) in play state every client frame must be compressed. Every compressed conversation contains frames of exactly threshold size. Bounded progress under inbound load: with 4000 frames already buffered behind a keep-alive the answer is written after at most 1000 dispatched packets (50 observed); free-running flood variant bounded by 60000 frames; descriptors still held by Connection objects whose sessions have ended; a slow consumer in a fifth of the conversations. Object state read by the user after an orderly session (connected, version, address, exception, threads); pairs of conversations running concurrently on two Connection objects.",
  'C12': " After every API call the calling thread must not own the write lock; forced writes that raise are part of the workload; after an immediate disconnect the same object reconnects and its first frames must be handshake and login start with no stale payload. Back-pressure engine: small socket buffers, a server that stalls, frames up to 400 KB from 1-3 threads (blocked sends are counted). Flushing disconnects with more than 300 packets queued and disconnects issued from an outgoing listener while others keep writing. Half of the stress runs also contain a server burst whose answers the networking thread queues itself (order judged); bulk queues up to 2600 packets.",
- 'C13': " A second registration phase in mid-session (sentinel frames delimit the phases) and concurrent registration from two threads are included. Outgoing listeners that themselves write (nested dispatch) and, from protocol 755, the specialised combat-event subclasses under a superclass filter. Packets with empty collections, accounting of dispatched vs sent packets per class, an early listener that disconnects without ignoring. The same packet object written three times; the server kicks (packets + disconnect + close) while a client write is failing - everything received is still dispatched.",
- 'C14': " Final handler modes include a reconnecting one; a delay-injection scenario has another thread inside connect() while the failing thread decides on its teardown. Two more origins: an OSError-family fault from a listener during the negotiation status phase, and an outgoing-listener fault while the server's disconnect packet is already readable. Handler behaviours include reconnect-and-raise and disconnect; faults with packets still queued and a guard listener; the exception that escapes the thread must be the routed one. Handlers return None/False/True/0/''; a final handler that delegates the reconnect to a supervisor thread and waits (a dead-lock is proven by the owner of the write lock). Filters spelled as tuples/nested tuples; a listener that disconnects and then fails with a transport-flavoured exception type.",
- 'C15': " Crash points include 'closes on accept'; a plain status() after a negotiation that ended in its status phase (reactor construction slowed down) and the automatic fallback session (must be an ordinary session) are judged too. Scenarios also cover a default version outside a multi-element allowed set (a looping client is a violation) and status() with latency measurement cut after the ping. Resets at frame boundaries also in quick; a thread that keeps running at full CPU after the peer has gone is a violation (per-thread CPU time); login connect refused after a complete status reply. Case-to-shard assignment is by hash of the case. Frames of 300, 20000 and 70000 bytes (cuts inside 2- and 3-byte length prefixes and inside a body beyond 64 KiB, sampled offsets). Directed: a half-open peer that no longer reads while a backlog is queued; a forced write inside a listener that is the first to notice the server's close.",
- 'C16': " Deterministic delay-injection scenarios: hand-over gap, check-vs-lock, stale read (LINE hook at the read statement), cancel-reconnect inside a listener; every history ends with a reuse probe. Histories include disconnects of a thread blocked inside a frame from a silent server, and the same action pairs after sessions that switched on encryption. Actions also cover disconnect() during an unanswered version negotiation (with a pause injected between socket shutdown and stream close) and a listener that reconnects and lingers 3-4 s. connect() from the latency callback of status(); an early keep-alive listener that reconnects without IgnorePacket (no reply of the old session may reach the new one). An exit callback that reconnects and lingers; descriptors and networking threads left behind by the histories are accounted.",
+ 'C13': " A second registration phase in mid-session (sentinel frames delimit the phases) and concurrent registration from two threads are included. Outgoing listeners that themselves write (nested dispatch) and, from protocol 755, the specialised combat-event subclasses under a superclass filter. Packets with empty collections, accounting of dispatched vs sent packets per class, an early listener that disconnects without ignoring. The same packet object written three times; the server kicks (packets + disconnect + close) while a client write is failing - everything received is still dispatched. One decorator object applied to two functions; one callable registered twice in a list.",
+ 'C14': " Final handler modes include a reconnecting one; a delay-injection scenario has another thread inside connect() while the failing thread decides on its teardown. Two more origins: an OSError-family fault from a listener during the negotiation status phase, and an outgoing-listener fault while the server's disconnect packet is already readable. Handler behaviours include reconnect-and-raise and disconnect; faults with packets still queued and a guard listener; the exception that escapes the thread must be the routed one. Handlers return None/False/True/0/''; a final handler that delegates the reconnect to a supervisor thread and waits (a dead-lock is proven by the owner of the write lock). Filters spelled as tuples/nested tuples; a listener that disconnects and then fails with a transport-flavoured exception type. Origin 'fallback-connect-refused' (exception raised inside the reactor's own hook); a user thread reconnecting while the failing thread is in its handler, with the successor's start delayed.",
+ 'C15': " Crash points include 'closes on accept'; a plain status() after a negotiation that ended in its status phase (reactor construction slowed down) and the automatic fallback session (must be an ordinary session) are judged too. Scenarios also cover a default version outside a multi-element allowed set (a looping client is a violation) and status() with latency measurement cut after the ping. Resets at frame boundaries also in quick; a thread that keeps running at full CPU after the peer has gone is a violation (per-thread CPU time); login connect refused after a complete status reply. Case-to-shard assignment is by hash of the case. Frames of 300, 20000 and 70000 bytes (cuts inside 2- and 3-byte length prefixes and inside a body beyond 64 KiB, sampled offsets). Directed: a half-open peer that no longer reads while a backlog is queued; a forced write inside a listener that is the first to notice the server's close. A second Connection object stalled in a blocking send while the first one's server stops inside a frame.",
+ 'C16': " Deterministic delay-injection scenarios: hand-over gap, check-vs-lock, stale read (LINE hook at the read statement), cancel-reconnect inside a listener; every history ends with a reuse probe. Histories include disconnects of a thread blocked inside a frame from a silent server, and the same action pairs after sessions that switched on encryption. Actions also cover disconnect() during an unanswered version negotiation (with a pause injected between socket shutdown and stream close) and a listener that reconnects and lingers 3-4 s. connect() from the latency callback of status(); an early keep-alive listener that reconnects without IgnorePacket (no reply of the old session may reach the new one). An exit callback that reconnects and lingers; descriptors and networking threads left behind by the histories are accounted. Two-connection cases: listeners that disconnect each other's connection at the same moment; an exit callback that delegates the reconnect to a supervisor thread and waits.",
  'C18': " End to end: histories of accepted/rejected/dropped encrypted logins on one Connection object; every secret recovered by the key holder must be new and the accepted sessions must work. The e2e sessions include a slow listener on the encryption request (encrypted bytes already waiting in the same read batch) and a consumer that takes part of the incoming stream through connection.socket.recv. Secrets must stay fresh when the application re-seeds `random`; concurrent hand-overs to servers with different keys under yield injection. A plugin request in the same segment as the encryption request (answer in the clear before, or encrypted after, the response); a late outgoing listener raising IgnorePacket on the response. Zero-length reads inside partitions; an exception from a wrapper call is a verdict.",
  'C19': " Error replies include bodies and fields full of str.format / % metacharacters. 24 further 4xx/5xx status codes; bodies that are not valid UTF-8; the error type's constructor.",
  'C20': " Map patches with an incomplete last row; twin enum classes queried ints-first and other-types-first must agree. Maps that are not square; record construction by position; accessor setters starting from existing values and in both orders.",
